@@ -5,6 +5,9 @@
    Framebuffer.fb_set_pixel on the U8 configuration, for i32 coordinates. *)
 From EG Require Import Base.Prelude Base.Casts Model.Geometry Model.Rawdata Model.Framebuffer Gen.SrcGeometry Gen.SrcRawData Gen.SrcFbSetPixel Proofs.SrcLoadStore.
 Set Default Timeout 60.
+(* the generated definitions that cast to usize (`as usize`, `usize::try_from`) take the width of usize as Casts.UsizeW; the model
+   of this property works with 64-bit usize (exact integers in range): taken at that width *)
+#[local] Existing Instance Casts.usize64_w.
 
 (* the point is inside the WIDTH x HEIGHT framebuffer (both `usize::try_from` succeed and the bounds test passes) *)
 Definition in_fb (W H : Z) (p : point) : bool := (0 <=? px p) && (0 <=? py p) && ((px p <? W) && (py p <? H)).
@@ -19,7 +22,7 @@ Lemma src_fb_set_pixel_u8_eq alt W H into fb p c :
     else Some (Build_Framebuffer (fb_set_pixel (FbCfg U8 alt W H) (Framebuffer_data fb) (px p, py p) (into c)) (Framebuffer_n_assert fb)).
 Proof.
   intros Hx Hy. destruct fb as [data na].
-  unfold src_Framebuffer_set_pixel, fb_set_pixel, in_fb, Casts.try_from_range, i32_min, i32_max in *.
+  unfold src_Framebuffer_set_pixel, fb_set_pixel, in_fb, Casts.try_from_usize, Casts.try_from_range, Casts.usize_max_w, Casts.usize64_w, Casts.max_usize, i32_min, i32_max in *.
   cbn [fb_t fb_w fb_h fb_alt Framebuffer_data Framebuffer_n_assert].
   destruct (Z.leb_spec 0 (px p)) as [X|X]; cbn [andb].
   2:{ destruct ((px p <=? 18446744073709551615)); reflexivity. }
